@@ -133,7 +133,12 @@ def gen_tables():
     # which attribute / data set every backend member function names (getter, setter, reset, guards): Props/C02Fields.lean
     out9 = os.path.join(LEAN, 'NixModel', 'Gen', 'Fields.lean')
     rc9, o9 = sh([sys.executable, os.path.join(VERIF, 'gen', 'extract_fields.py'), REPO, out9])
-    return rc9 == 0, o + o2 + o3 + o4 + o5 + o6 + o7 + o8 + o9
+    if rc9 != 0:
+        return False, o + o2 + o3 + o4 + o5 + o6 + o7 + o8 + o9
+    # the enum <-> string conversions of dimension kinds, link types and element types: Props/C13Enums.lean
+    out10 = os.path.join(LEAN, 'NixModel', 'Gen', 'Enums.lean')
+    rc10, o10 = sh([sys.executable, os.path.join(VERIF, 'gen', 'extract_enums.py'), REPO, out10])
+    return rc10 == 0, o + o2 + o3 + o4 + o5 + o6 + o7 + o8 + o9 + o10
 
 def lake(target):
     env = dict(os.environ)
